@@ -51,7 +51,12 @@ def main():
                 rc, out = sh(os.path.join(ROOT, "tools", "repo_test.sh"))
                 rec["tests_pass"] = ("144 passed; 0 failed" in out)
             t0 = time.time()
+            # the evidence file describes the UNCHANGED tree: keep it (a check run on a changed tree rewrites it)
+            evf = os.path.join(ROOT, "evidence", f"{pid}.json")
+            saved = open(evf).read() if os.path.exists(evf) else None
             rc, out = sh(f"./check {pid} --tier quick", cwd=ROOT)
+            if saved is not None:
+                open(evf, "w").write(saved)
             rec["check_rc"] = rc
             rec["seconds"] = round(time.time() - t0, 1)
             vio = [l for l in out.splitlines() if l.startswith("VIOLATION")]
